@@ -236,20 +236,20 @@ MANIFEST_TEXT["C05"] = {
 SEQ_H = ["harness/cons/v2seq.go", "harness/common/cons_world.go", "harness/common/cons_support.go"]
 SEQ_P = {"weight_uf": 1, "v1cur_fixed": 1, "tax_uf": 1, "spidx_uf": 1, "int_mode": 1, "cur_lift": 1}
 SEQ_REACH = {
-    "VH_SEQ_V2ReviseRevise": ["first-accepted", "second-accepted", "second-rejected"],
+    "VH_SEQ_V2ReviseRevise": ["first-accepted", "second-accepted", "second-rejected", "revised-at-proof-height", "new-proof-height-at-bound", "minimal-window", "revision-number-plus-one", "missed-host-value-kept"],
     "VH_SEQ_V2ResolveOnce": ["revised", "resolved", "second-rejected"],
     "VH_SEQ_V2SameTxnDoubleUse": ["end"],
-    "VH_SEQ_V2ResolutionOutputs": ["end"],
-    "VH_SEQ_V2PolicyLocks": ["accepted", "accepted-at-bound"],
+    "VH_SEQ_V2ResolutionOutputs": ["end", "proof-at-bound", "expiry-at-bound"],
+    "VH_SEQ_V2PolicyLocks": ["accepted", "accepted-at-bound", "accepted-at-maturity"],
     "VH_SEQ_V2InputAuth": ["accepted-input", "accepted-attestation", "accepted-contract"],
     "VH_SEQ_V2RenewalAuth": ["accepted"],
     "VH_SEQ_V2DoubleSpend": ["first-accepted", "end"],
     "VH_SEQ_V1DoubleSpend": ["first-accepted", "second-accepted"],
-    "VH_SEQ_ForkHeightsAndV1Locks": ["v1-accepted", "v2-accepted"],
+    "VH_SEQ_ForkHeightsAndV1Locks": ["v1-accepted", "v2-accepted", "v1-last-height", "v1-at-maturity", "v2-first-height"],
     "VH_SEQ_V2Conservation": ["end"],
     "VH_SEQ_V2SiafundClaimRunningPool": ["end"],
-    "VH_SEQ_V1FormContract": ["end"],
-    "VH_SEQ_V1Revision": ["end"],
+    "VH_SEQ_V1FormContract": ["end", "window-starts-now", "minimal-window"],
+    "VH_SEQ_V1Revision": ["end", "timelock-at-bound", "revised-at-window-start", "revision-number-plus-one"],
     "VH_SEQ_V1SiafundClaim": ["end"],
     "VH_SEQ_V1Resolution": ["proof-end", "expiry-end"],
     "VH_SEQ_V1SameTxnDouble": ["end"],
